@@ -61,27 +61,6 @@ def find_agg(e, name):
     return None
 
 
-def slice_nf(e, data):
-    """a sub-slice of `data` in normal form (lo, hi) with hi = None for "to the end": &data[lo..], &data[..hi], &data[lo..hi],
-    data.split_at(k).0 / .1, data itself; None if e is something else"""
-    e = strip_ref(e)
-    while e[0] in ('deref', 'ref'):
-        e = strip_ref(e[1])
-    if e == data:
-        return (C(0), None)
-    ix = index_from(e)
-    if ix is not None:
-        sub = slice_nf(ix[0], data)
-        if sub == (C(0), None):
-            return (ix[1], ix[2] if len(ix) == 3 else None)
-        return None
-    if e[0] == 'fld' and e[2] in ('0', '1') and e[1][0] == 'call' and (e[1][1] or '').endswith('::split_at') and len(e[1][2]) == 2 and \
-            slice_nf(e[1][2][0], data) == (C(0), None):
-        k = e[1][2][1]
-        return (C(0), k) if e[2] == '0' else (k, None)
-    return None
-
-
 def lin_len(e, data):
     """a length expression over `data` as ({atom: coeff}, const): len(data), len(data) - k, len(&data[k..]), k2 - k ..."""
     if e[0] == 'c' and isinstance(e[1], int):
